@@ -10,24 +10,31 @@ ALLOWED_AXIOMS = []
 READY = True
 RUN_IMPORT = "Router.UrlRun"
 
-RULE = ("cases drawn from one PRNG (VERIF_SEED): op0 escape(text), op1 unescape(raw), op2 "
-        "RequestUrl::parse('/path?query#frag') with raw escapes (valid, invalid-UTF-8, nested %25xx, "
-        "truncated, '+', empty fields), op3 ParamsMap -> to_query_string -> parse, op4 raw route "
-        "parameters collected into a ParamsMap, op5/op6 a real nested (/:a/:b) and flat (/u/:id) router server-rendered "
-        "for a request path with raw segments, reading use_params_map() in the matched component; a separate malformed stream (arbitrary strings as URL) is "
-        "checked for panics only. A case is non-trivial when the model's answer differs from the literal "
-        "input text (some decoding/encoding actually happened) ; distinct = distinct case hash.")
+RULE = ("cases drawn from one PRNG (VERIF_SEED): op0 escape(text), op1 unescape / unescape_minimal(raw), op2 "
+        "RequestUrl::parse / parse_with_base('/path?query#frag') with raw escapes (valid, invalid-UTF-8, nested %25xx, "
+        "truncated, '+', empty fields; also 255-300 byte inputs), op7 the same request as leptos_actix hands it over "
+        "('http://leptos' + path-and-query), op3 ParamsMap (String / &'static str keys, new / with_capacity) -> "
+        "to_query_string -> parse, op4 raw route parameters collected with FromIterator (owned / Cow::Borrowed keys), "
+        "op8 a map driven through insert / replace / remove sequences, then written and parsed back; "
+        "op5/op6 a real nested (<Routes>, 1-3 levels of static / param / optional / wildcard segments, the same name at "
+        "several levels) or flat (<FlatRoutes>) router server-rendered through .to_html(), the in-order stream or the "
+        "out-of-order stream for a request built from raw segments plus a raw query, reading use_params_map() at EVERY "
+        "level and use_query_map / use_location().query / use_params::<T> / use_query::<T> / query_signal in the leaf; "
+        "every map is observed through IntoIterator AND through get / get_str / get_all. A separate malformed stream "
+        "(arbitrary strings as URL) is checked for panics only. A case is non-trivial when the model's answer differs "
+        "from the literal input text (some decoding/encoding actually happened) ; distinct = distinct case hash.")
 TRUSTED = [
     "Coq 8.16.1 kernel (coqc); no axioms: every theorem of Properties_C15.v is 'Closed under the global context'",
     "extraction to OCaml with ExtrOcamlBasic only (no Extract Constant / Extract Inductive of ours), ocamlfind ocamlopt 4.13.1, extract/driver.ml sexp I/O",
     "harness/router (Rust) calling Url::escape/unescape, RequestUrl::parse, ParamsMap::{insert,to_query_string,FromIterator,IntoIterator} of /repo",
     "modelled, not verified: percent_encoding::{utf8_percent_encode(NON_ALPHANUMERIC), percent_decode}, url::Url::parse (only: C0/space trim, tab/newline removal, '#' and '?' splitting of a path-absolute reference), form_urlencoded::parse, String::from_utf8_lossy — each transcribed in Router/Url.v / Base/Bytes.v and compared with the real crates on every case",
-    "nested router: op5 server-renders a real <Router>/<ParentRoute path=:a>/<Route path=:b> for /<raw_a>/<raw_b> and reads use_params_map() in the leaf; only this two-level shape is driven, the theorem C15_nested_values_decoded_once covers any number of levels of the model",
+    "routers: ops 5/6 server-render a real <Router> + <Routes>/<FlatRoutes> whose route definitions are built from the case (NestedRoute::new(..).child(..), erased with into_any_nested_route) through all three SSR entry points; the model (Url.level_maps) is params_including_parents over the captured raw segments, theorem C15_nested_values_decoded_once covers any number of levels",
+    "compared, not proved: op7 (that url::Url::parse treats 'http://leptos' + p like p as far as the query goes), the typed readers (Params::from_map / IntoParam for Option<String>), use_query_map / use_location().query / query_signal (the model prints get_str of the parsed query for them)",
 ]
 ASSUMPTIONS = [
     "Rust strings are valid UTF-8 (hypotheses all_bytes/utf8_valid of the round-trip theorems)",
     "a ParamsMap built through its public API has distinct keys and no key with an empty value list (wf_map)",
-    "request targets reach RequestUrl::parse as path-absolute references; other shapes are only checked for panics",
+    "request targets reach RequestUrl::parse as path-absolute references (leptos_axum) or as 'http://leptos' + a path-absolute reference (leptos_actix); other shapes are only checked for panics",
 ]
 
 TEXT_CHARS = ["%", "+", "&", "=", "#", "?", "/", " ", "a", "Z", "4", "1", "2", "5", "F", "f",
@@ -91,10 +98,7 @@ def seg(rng):
             return s
 
 
-def gen_url(rng):
-    path = "/" + "".join(rng.choice(["a", "b", "/x", "%41", "é", ".", "~", "%2F", ""]) for _ in range(rng.randint(0, 3)))
-    if path.startswith("//"):
-        path = "/a" + path[1:]
+def query_fields(rng):
     fields = []
     for _ in range(rng.choice([0, 1, 1, 2, 3, 4])):
         r = rng.random()
@@ -107,11 +111,22 @@ def gen_url(rng):
             fields.append("")                       # '&&'
         else:
             fields.append(k + "=" + raw(rng, 3, True) + "=" + raw(rng, 2, True))
+    return fields
+
+
+def gen_url(rng, plain=False):
+    """plain: as a server hands it over (no surrounding / embedded whitespace)"""
+    path = "/" + "".join(rng.choice(["a", "b", "/x", "%41", "é", ".", "~", "%2F", ""]) for _ in range(rng.randint(0, 3)))
+    if path.startswith("//"):
+        path = "/a" + path[1:]
+    fields = query_fields(rng)
     url = path
     if fields or rng.random() < 0.3:
         url += "?" + "&".join(fields)
     if rng.random() < 0.2:
         url += "#" + rng.choice(["", "frag", "a=b&c", "?x=1"])
+    if plain:
+        return url
     if rng.random() < 0.1:
         url = rng.choice([" ", "\t", "\n", "  "]) + url
     if rng.random() < 0.1:
@@ -120,6 +135,16 @@ def gen_url(rng):
         i = rng.randint(1, len(url) - 1)
         url = url[:i] + rng.choice(["\t", "\n", "\r"]) + url[i:]
     return url
+
+
+def long_raw(rng):
+    """255..300 bytes: runs of escapes, nested escapes and literals around the 2^8 boundary"""
+    target = rng.choice([255, 256, 257, 300])
+    out = ""
+    while len(out.encode()) < target:
+        out += raw(rng, 8, True) or "%25"
+    b = out.encode()[:target]
+    return b.decode("utf-8", "ignore")
 
 
 def gen_map(rng):
@@ -134,6 +159,58 @@ def gen_map(rng):
     return m
 
 
+PNAMES = ["a", "b", "c", "id"]
+STATIC_TEXTS = ["s", "u", "", "x.y", "~t", "S-1_"]
+
+
+def wild(rng):
+    if rng.random() < 0.2:
+        return ""
+    return "/".join(seg(rng) for _ in range(rng.choice([1, 2, 2, 3])))
+
+
+def gen_level(rng, leaf):
+    segs = []
+    for _ in range(rng.choice([1, 1, 2, 3])):
+        if rng.random() < 0.3:
+            segs.append([0, rng.choice(STATIC_TEXTS)])
+        else:
+            segs.append([1, rng.choice(PNAMES), seg(rng)])
+    if leaf:
+        r = rng.random()
+        if r < 0.2:
+            segs.append([3, rng.choice(PNAMES), wild(rng)])
+        elif r < 0.4:
+            segs.append([2, rng.choice(PNAMES), [seg(rng)] if rng.random() < 0.6 else []])
+    return segs
+
+
+def gen_router_case(rng, flat):
+    n = 1 if flat else rng.choice([1, 2, 2, 2, 3, 3])
+    chain = [gen_level(rng, i == n - 1) for i in range(n)]
+    q = [] if rng.random() < 0.4 else ["&".join(query_fields(rng))]
+    return [6 if flat else 5, rng.randint(0, 2), chain, q]
+
+
+def gen_steps(rng):
+    """insert / replace / remove over few keys and few values, so that a key is hit repeatedly
+    and a value is written again over itself (also as another spelling: %41 / A)"""
+    keys = ["q", "a", "", text(rng, 3)][:rng.choice([1, 2, 4])]
+    pool = [raw(rng, 6) for _ in range(rng.choice([1, 2, 3]))] + rng.choice([[], ["A", "%41"]])
+    steps = []
+    for _ in range(rng.randint(1, 8)):
+        r = rng.random()
+        k = rng.choice(keys)
+        v = rng.choice(pool) if rng.random() < 0.7 else raw(rng, 6)
+        if r < 0.5:
+            steps.append([0, k, v])
+        elif r < 0.8:
+            steps.append([1, k, v])
+        else:
+            steps.append([2, k])
+    return steps
+
+
 MALFORMED = ["", "?", "#", "//", "///", "//?q=%FF", "http://", "http://[::1", "\\\\x", "a b", "%", "%FF", "/%FF?%FF=%FF",
              "?%25FF=%25FF", "/?q=%25%46%46", "\x00", "//é", "/?a=%ED%A0%80", "foo/bar?x=%2541", "https://x.y/?q=%FF#%FF",
              "mailto:x?y=%FF", "data:,%FF", "/?" + "%FF" * 50, "?&&==&%&%2&%%%", "/\t?\nq=\r%FF", "//[?", "::", "/a?b#c?d=%FF"]
@@ -142,28 +219,39 @@ MALFORMED = ["", "?", "#", "//", "///", "//?q=%FF", "http://", "http://[::1", "\
 def generate(rng, tier):
     n = 6000 if tier == "quick" else 120000
     for s in MALFORMED:
-        yield dict(case=C.norm([2, s]), kind="malformed-url", compare=False)
+        for b in (0, 1, 2):
+            yield dict(case=C.norm([2, s] + ([b] if b else [])), kind="malformed-url", compare=False)
     for i in range(n):
         r = rng.random()
-        if r < 0.12:
-            yield dict(case=C.norm([0, text(rng, 8)]), kind="escape")
-        elif r < 0.30:
-            yield dict(case=C.norm([1, raw(rng, 8)]), kind="unescape")
-        elif r < 0.62:
-            yield dict(case=C.norm([2, gen_url(rng)]), kind="parse-url")
-        elif r < 0.80:
-            # third element: 1 = keys inserted as &'static str (Cow::Borrowed), 0 = owned Strings
-            yield dict(case=C.norm([3, gen_map(rng), rng.randint(0, 1)]), kind="map-roundtrip")
-        elif r < 0.88:
+        if r < 0.10:
+            t = text(rng, 8) if rng.random() < 0.95 else long_raw(rng)
+            yield dict(case=C.norm([0, t]), kind="escape")
+        elif r < 0.25:
+            t = raw(rng, 8) if rng.random() < 0.95 else long_raw(rng)
+            yield dict(case=C.norm([1, t] + ([1] if rng.random() < 0.3 else [])), kind="unescape")
+        elif r < 0.47:
+            b = rng.choice([0, 0, 0, 1, 2])
+            u = gen_url(rng) if rng.random() < 0.97 else "/?q=" + long_raw(rng)
+            yield dict(case=C.norm([2, u] + ([b] if b else [])), kind="parse-url")
+        elif r < 0.57:
+            u = gen_url(rng, plain=True) if rng.random() < 0.97 else "/p?" + long_raw(rng)
+            yield dict(case=C.norm([7, u]), kind="parse-url-actix")
+        elif r < 0.70:
+            # third element: bit 0 = keys inserted as &'static str (Cow::Borrowed) instead of owned Strings,
+            # bit 1 = ParamsMap::with_capacity
+            yield dict(case=C.norm([3, gen_map(rng), rng.randint(0, 3)]), kind="map-roundtrip")
+        elif r < 0.77:
             pairs = [[rng.choice(["id", "x", "y"]), raw(rng, 6)] for _ in range(rng.choice([1, 1, 2, 3]))]
-            yield dict(case=C.norm([4, pairs]), kind="route-params")
-        elif r < 0.91:
-            yield dict(case=C.norm([5, [seg(rng), seg(rng)]]), kind="nested-route-params")
+            yield dict(case=C.norm([4, pairs, rng.randint(0, 1)]), kind="route-params")
+        elif r < 0.84:
+            yield dict(case=C.norm([8, gen_steps(rng)]), kind="map-edit")
+        elif r < 0.90:
+            yield dict(case=C.norm(gen_router_case(rng, False)), kind="nested-route-params")
         elif r < 0.94:
-            yield dict(case=C.norm([6, seg(rng)]), kind="flat-route-params")
+            yield dict(case=C.norm(gen_router_case(rng, True)), kind="flat-route-params")
         else:
             s = "".join(rng.choice(TEXT_CHARS + list("/:@[]?#%")) for _ in range(rng.randint(0, 10)))
-            yield dict(case=C.norm([2, s]), kind="malformed-url", compare=False)
+            yield dict(case=C.norm([2, s] + rng.choice([[], [], [1], [2]])), kind="malformed-url", compare=False)
 
 
 # ---------------------------------------------------------------- independent reference decoders
@@ -224,6 +312,96 @@ def ref_group(pairs):
     return m
 
 
+def plain(m):
+    """the (key, values) part of a map observation"""
+    return [[e[0], e[1]] for e in m]
+
+
+def reads_msg(m):
+    """the reading API agrees with the contents: get_all(k) = every value of k, in order;
+    get(k) = get_str(k) = one of them (upstream: the most recently added)"""
+    for e in m:
+        k, vs, r = e
+        if r[0] != [vs]:
+            return "get_all(%r) does not return the values of the key" % C.show_bytes(k)
+        if r[1] != r[2]:
+            return "get(%r) and get_str(%r) differ" % (C.show_bytes(k), C.show_bytes(k))
+        if not r[1] or r[1][0] not in vs:
+            return "get(%r) is not one of the values of the key" % C.show_bytes(k)
+    return None
+
+
+def want_query(arg):
+    q = ref_query(arg)
+    return ref_group(ref_form(q)) if q is not None else []
+
+
+def chain_names(chain, upto=None):
+    """name -> decoded raw segments bound to it, for the levels [0, upto)"""
+    out = {}
+    for level in chain[:upto]:
+        for sg in level:
+            if sg[0] in (1, 3):
+                out.setdefault(tuple(sg[1]), []).append(lossy(pct_decode(bytes(sg[2]))))
+            elif sg[0] == 2 and sg[2]:
+                out.setdefault(tuple(sg[1]), []).append(lossy(pct_decode(bytes(sg[2][0]))))
+    return out
+
+
+def typed_msg(got, names, m, what):
+    """a typed reader (Params::from_map): Some(v) with v one of the values iff the key exists"""
+    if got == [-1]:
+        return "%s failed on String fields" % what
+    vals = {tuple(k): vs for k, vs in m}
+    for n, g in zip(names, got):
+        vs = vals.get(tuple(n.encode()))
+        if (vs is None) != (g == []):
+            return "%s: field %r present/absent wrongly" % (what, n)
+        if g and g[0] not in vs:
+            return "%s: field %r is not the once-decoded value" % (what, n)
+    return None
+
+
+def router_oracle(case, impl):
+    chain, q = case[2], case[3]
+    if impl and impl[0] == -3:
+        return "the router did not render exactly one view per matched level: %r" % (impl[:2],)
+    levels, leaf = impl
+    allv = chain_names(chain)
+    if len(levels) != len(chain):
+        return "one params map per level expected"
+    for i, m in enumerate(levels):
+        got = {tuple(k): vs for k, vs in plain(m)}
+        if len(got) != len(m):
+            return "a key occurs twice in the params map"
+        need = set(chain_names(chain, i + 1)) if i + 1 < len(levels) else set(allv)
+        if not (need <= set(got) <= set(allv)):
+            return "level %d: the params map does not have the names bound by the matched routes" % i
+        for k, vs in got.items():
+            if not vs or any(v not in allv[k] for v in vs):
+                return "level %d: a route parameter is not the once-decoded raw segment" % i
+            if i + 1 == len(levels) and any(w not in vs for w in allv[k]):
+                return "leaf: a captured segment is missing from the values of its name"
+        msg = reads_msg(m)
+        if msg:
+            return "level %d: %s" % (i, msg)
+    qmap, locq, tparams, tquery, qsig = leaf
+    want = ref_group(ref_form(ref_query(b"/?" + bytes(q[0])) or b"")) if q else []
+    for name, m in (("use_query_map", qmap), ("use_location().query", locq)):
+        if plain(m) != want:
+            return "%s differs from decoding each query component exactly once" % name
+        msg = reads_msg(m)
+        if msg:
+            return "%s: %s" % (name, msg)
+    msg = typed_msg(tparams, PNAMES, plain(levels[-1]), "use_params::<T>")
+    if msg:
+        return msg
+    msg = typed_msg(tquery, ["q", "a", "k", ""], want, "use_query::<T>")
+    if msg:
+        return msg
+    return typed_msg([qsig], ["q"], want, "query_signal")
+
+
 def oracle(item, impl):
     case = item["case"]
     op, arg = case[0], case[1]
@@ -240,35 +418,51 @@ def oracle(item, impl):
     if op == 1:
         want = lossy(pct_decode(bytes(arg)))
         return None if impl == want else "unescape() is not one percent-decoding of its input"
-    if op == 2:
+    if op in (2, 7):
         if item.get("kind") == "malformed-url":
             return None  # Ok or Err are both fine; only a panic is a failure
         if impl and impl[0] == -1:
             return "structured URL rejected: " + C.show_bytes(impl[1])
-        q = ref_query(arg)
-        want = ref_group(ref_form(q)) if q is not None else []
-        return None if impl == want else "search_params differ from decoding each query component exactly once"
+        if plain(impl) != want_query(arg):
+            return "search_params differ from decoding each query component exactly once"
+        return reads_msg(impl)
     if op == 3:
-        if impl and impl[0] in (-1, -2):
-            return "could not build / re-parse the map: %r" % (impl,)
-        return None if impl[1] == arg else "to_query_string() + parse is not the identity on this map"
-    if op == 6:
-        if impl and impl[0] == -3:
-            return "flat route did not render exactly one matched view: %r" % (impl,)
-        return None if impl == [[[105, 100], [lossy(pct_decode(bytes(arg)))]]] else \
-            "flat route parameter is not the once-decoded raw segment"
-    if op == 5:
-        if impl and impl[0] == -3:
-            return "nested route did not render exactly one leaf: %r" % (impl,)
-        # every value the application can read for a / b must be the once-decoded segment
-        # (the parent match also carries the child's params, so b may be listed more than once)
-        want = {(97,): lossy(pct_decode(bytes(arg[0]))), (98,): lossy(pct_decode(bytes(arg[1])))}
-        got = {tuple(k): vs for k, vs in impl}
-        ok = set(got) == set(want) and all(vs and all(v == want[k] for v in vs) for k, vs in got.items())
-        return None if ok else "nested route parameter is not the once-decoded raw segment"
+        if impl and impl[0] == -1:
+            return "could not re-parse the written query string: %r" % (impl,)
+        qs, back, built = impl
+        if plain(built) != arg:
+            return "insert(k, escape(v)) did not build the intended map"
+        if plain(back) != arg:
+            return "to_query_string() + parse is not the identity on this map"
+        return reads_msg(built) or reads_msg(back)
+    if op in (5, 6):
+        return router_oracle(case, impl)
     if op == 4:
         want = ref_group([(k, lossy(pct_decode(bytes(v)))) for k, v in arg])
-        return None if impl == want else "route parameter is not the once-decoded raw segment"
+        if plain(impl) != want:
+            return "route parameter is not the once-decoded raw segment"
+        return reads_msg(impl)
+    if op == 8:
+        removed, m, qs, back = impl
+        sim, sim_removed = {}, []
+        for st in arg:
+            k = tuple(st[1])
+            if st[0] == 0:
+                sim.setdefault(k, []).append(lossy(pct_decode(bytes(st[2]))))
+            elif st[0] == 1:
+                sim[k] = [lossy(pct_decode(bytes(st[2])))]
+            else:
+                sim_removed.append([sim.pop(k)] if k in sim else [])
+        if removed != sim_removed:
+            return "remove() did not return the values of the removed key"
+        got = {tuple(k): vs for k, vs in plain(m)}
+        if len(got) != len(m) or got != sim:
+            return "insert / replace / remove: the map does not hold the once-decoded values"
+        if back and back[0] == -1:
+            return "could not re-parse the written query string"
+        if plain(back) != plain(m):
+            return "to_query_string() + parse is not the identity on the edited map"
+        return reads_msg(m) or reads_msg(back)
     return None
 
 
@@ -277,7 +471,7 @@ def nontrivial(item, model):
     if item.get("kind") == "malformed-url":
         return False
     flat_in = C.sx(case[1])
-    return C.sx(model) != flat_in and 37 in _flat(case[1])
+    return C.sx(model) != flat_in and 37 in _flat(case[1:])
 
 
 def _flat(v):
@@ -289,18 +483,40 @@ def _flat(v):
     return out
 
 
+def seg_show(sg):
+    if sg[0] == 0:
+        return C.show_bytes(sg[1])
+    if sg[0] == 1:
+        return ":%s=%s" % (C.show_bytes(sg[1]), C.show_bytes(sg[2]))
+    if sg[0] == 2:
+        return ":%s?=%s" % (C.show_bytes(sg[1]), C.show_bytes(sg[2][0]) if sg[2] else "<absent>")
+    return "*%s=%s" % (C.show_bytes(sg[1]), C.show_bytes(sg[2]))
+
+
 def describe(it):
     case = it["case"]
     op = case[0]
     names = {0: "escape", 1: "unescape", 2: "RequestUrl::parse", 3: "map->query->parse", 4: "collect raw params",
-             5: "nested router /:a/:b use_params_map", 6: "flat router /u/:id use_params_map"}
+             5: "nested router", 6: "flat router", 7: "RequestUrl::parse(http://leptos + ..)", 8: "map edit"}
     a = case[1]
-    if op in (0, 1, 2, 6):
-        return "%s(%r)" % (names[op], C.show_bytes(a))
-    if op == 5:
-        return "%s(/%s/%s)" % (names[op], C.show_bytes(a[0]), C.show_bytes(a[1]))
+    if op in (0, 1, 2, 7):
+        extra = ""
+        if op == 1 and len(case) > 2 and case[2] == 1:
+            extra = " [unescape_minimal]"
+        if op == 2 and len(case) > 2 and case[2]:
+            extra = " [parse_with_base #%d]" % case[2]
+        return "%s(%r)%s" % (names[op], C.show_bytes(a), extra)
+    if op in (5, 6):
+        mode = ["to_html", "in-order stream", "out-of-order stream"][case[1] & 3]
+        return "%s via %s: %s query=%r" % (
+            names[op], mode, " > ".join("/".join(seg_show(sg) for sg in lv) for lv in case[2]),
+            C.show_bytes(case[3][0]) if case[3] else None)
     if op == 3:
-        return "%s(%r)" % (names[op], [(C.show_bytes(k), [C.show_bytes(v) for v in vs]) for k, vs in a])
+        return "%s(%r) flags=%r" % (names[op], [(C.show_bytes(k), [C.show_bytes(v) for v in vs]) for k, vs in a],
+                                    case[2] if len(case) > 2 else 0)
+    if op == 8:
+        return "%s(%r)" % (names[op], [(["insert", "replace", "remove"][st[0]],) + tuple(C.show_bytes(x) for x in st[1:])
+                                       for st in a])
     return "%s(%r)" % (names.get(op), [(C.show_bytes(k), C.show_bytes(v)) for k, v in a])
 
 LEVEL_TEXT = ("Coq proofs, for all byte strings / all well-formed parameter maps, that unescape∘escape is the identity, "
@@ -311,8 +527,8 @@ LEVEL_TEXT = ("Coq proofs, for all byte strings / all well-formed parameter maps
               "strings and maps every run, plus an independent Python RFC 3986/form-urlencoded decoder as oracle. Totality "
               "(no panic) is checked on a separate malformed-URL stream under catch_unwind.")
 LEVEL_NOTE = ("Trusted: Coq kernel, ExtrOcamlBasic extraction + OCaml driver, the Rust harness; modelled not verified: "
-              "percent_encoding, url::Url::parse (path-absolute subset), form_urlencoded, from_utf8_lossy; the nested "
-              "router's params memo is modelled but not exercised by the harness. No axioms.")
+              "percent_encoding, url::Url::parse (path-absolute subset), form_urlencoded, from_utf8_lossy; the client-side "
+              "arms (js_sys) and client navigation (rebuild / hydrate) are outside the check. No axioms.")
 TECHNIQUE = "Coq proof (induction over byte strings and maps) + differential correspondence of the extracted model with the Rust code"
 
 
@@ -331,30 +547,72 @@ def _seg_ok(b):
             and not any(c in s for c in b"/\\?#") and all(c > 0x20 and c != 0x7F for c in s))
 
 
+STATIC_OK = set(b"abcdefghijklmnopqrstuvwxyzABCDEFGHIJKLMNOPQRSTUVWXYZ0123456789.~-_")
+
+
+def _router_case_ok(case):
+    op, flags, chain, q = case
+    if flags not in (0, 1, 2) or not (1 <= len(chain) <= (1 if op == 6 else 3)):
+        return False
+    if not (q == [] or (len(q) == 1 and _utf8(q[0]))):
+        return False
+    for li, level in enumerate(chain):
+        if not level:
+            return False
+        for si, sg in enumerate(level):
+            last = li == len(chain) - 1 and si == len(level) - 1
+            k = sg[0]
+            if k == 0:
+                if not (len(sg) == 2 and all(c in STATIC_OK for c in sg[1]) and bytes(sg[1]) not in (b".", b"..")):
+                    return False
+                continue
+            if not (len(sg) == 3 and sg[1] and _utf8(sg[1]) and 47 not in sg[1]):
+                return False
+            if k == 1:
+                if not _seg_ok(sg[2]):
+                    return False
+            elif k == 2:
+                if not (last and (sg[2] == [] or (len(sg[2]) == 1 and _seg_ok(sg[2][0])))):
+                    return False
+            elif k == 3:
+                if not last:
+                    return False
+                if sg[2] and not all(_seg_ok(list(p)) for p in bytes(sg[2]).split(b"/")):
+                    return False
+            else:
+                return False
+    return True
+
+
 def valid_case(item):
     """preconditions of the generator that the shrinker has to preserve"""
     case = item["case"]
     try:
         op, arg = case[0], case[1]
         if item.get("kind") == "malformed-url":
-            return _utf8(arg)
+            return _utf8(arg) and (len(case) == 2 or case[2] in (1, 2))
         if op in (0, 1):
-            return _utf8(arg)
+            return _utf8(arg) and (len(case) == 2 or (op == 1 and case[2] == 1))
         if op == 2:
             s = bytes(arg).strip(bytes(range(0, 33)))
-            return _utf8(arg) and s[:1] == b"/" and s[1:2] not in (b"/", b"\\")
+            return (_utf8(arg) and s[:1] == b"/" and s[1:2] not in (b"/", b"\\")
+                    and (len(case) == 2 or case[2] in (1, 2)))
+        if op == 7:
+            s = bytes(arg)
+            return len(case) == 2 and _utf8(arg) and s[:1] == b"/" and s[1:2] not in (b"/", b"\\")
         if op == 3:
-            if len(case) > 2 and case[2] not in (0, 1):
+            if len(case) > 2 and case[2] not in (0, 1, 2, 3):
                 return False
             keys = [tuple(k) for k, vs in arg]
             return (len(set(keys)) == len(keys) and all(len(vs) > 0 for k, vs in arg)
                     and all(_utf8(k) and all(_utf8(v) for v in vs) for k, vs in arg))
         if op == 4:
-            return all(_utf8(k) and _utf8(v) for k, v in arg)
-        if op == 5:
-            return len(arg) == 2 and _seg_ok(arg[0]) and _seg_ok(arg[1])
-        if op == 6:
-            return _seg_ok(arg)
+            return all(_utf8(k) and _utf8(v) for k, v in arg) and (len(case) == 2 or case[2] in (0, 1))
+        if op in (5, 6):
+            return len(case) == 4 and _router_case_ok(case)
+        if op == 8:
+            return all((st[0] in (0, 1) and len(st) == 3 and _utf8(st[1]) and _utf8(st[2]))
+                       or (st[0] == 2 and len(st) == 2 and _utf8(st[1])) for st in arg)
     except Exception:
         return False
     return False
